@@ -1,7 +1,9 @@
 package chain
 
 import (
+	"os"
 	"bytes"
+	"encoding/base64"
 	"encoding/hex"
 	"encoding/json"
 	"fmt"
@@ -178,8 +180,12 @@ func (w *World) judgeQuery(r *Replica, path string, data []byte, h int64, res *a
 			w.QueryMemo[key] = ans
 		}
 	}
+	props := []string{"C19"}
+	if path == "vm_call" {
+		props = []string{"C17", "C19"}
+	}
 	bad := func(f string, a ...interface{}) {
-		w.violate("query.value", []string{"C19"}, w.curH, "replica %s at %s: %s(%x) at height %d: %s", r.Name, point, path, data, h, fmt.Sprintf(f, a...))
+		w.violate("query.value", props, w.curH, "replica %s at %s: %s(%x) at height %d: %s", r.Name, point, path, data, h, fmt.Sprintf(f, a...))
 	}
 	switch path {
 	case "account":
@@ -309,6 +315,8 @@ func (w *World) judgeQuery(r *Replica, path string, data []byte, h int64, res *a
 			bad("%s", d)
 		}
 		w.Probes.Hit("query.judged.gov_params")
+	case "vm_call":
+		w.judgeVmCall(r, data, h, res, point, bad)
 	case "proposal":
 		if len(data) == 0 || res.Code != 0 {
 			return
@@ -508,4 +516,90 @@ func canonicalJSON(b []byte) []byte {
 		return b
 	}
 	return c
+}
+
+
+// judgeVmCall: a read-only contract call at height h must equal the reference EVM's read-only call on
+// the world committed at h (code and storage of h, native balances and nonces of h, block time of h).
+func (w *World) judgeVmCall(r *Replica, data []byte, h int64, res *abci.ResponseQuery, point string, bad func(string, ...interface{})) {
+	if len(data) < 40 || !w.Tr.Cfg.EVM {
+		return
+	}
+	snap := w.M.Snaps[h]
+	st := w.M.StateAt(h)
+	if snap == nil || st == nil || h < 1 {
+		return
+	}
+	from, to := ToAddr(data[:20]), ToAddr(data[20:40])
+	var toP *Addr
+	if to != (Addr{}) {
+		toP = &to
+	}
+	// listed findings change what the node's EVM sees at these addresses (see known_findings.json)
+	if w.M.Inner[to] || w.M.Destroyed[to] {
+		return
+	}
+	ref, err := RefCall(st, h, snap.BlockTime, from, toP, data[40:])
+	if res.Code != 0 {
+		if err == nil {
+			bad("node answers error code %d (%s), reference call succeeds (gas %d)", res.Code, res.Log, ref.UsedGas)
+		}
+		return
+	}
+	if err != nil {
+		bad("node answers, reference call is not applicable: %v", err)
+		return
+	}
+	var d struct {
+		UsedGas    interface{} `json:"usedGas"`
+		ReturnData []byte      `json:"returnData"`
+		Err        string      `json:"vmErr"`
+	}
+	var raw map[string]interface{}
+	if json.Unmarshal(res.Value, &raw) != nil {
+		bad("undecodable %s", res.Value)
+		return
+	}
+	_ = d
+	var gotGas int64
+	var gotRet []byte
+	for k, v := range raw {
+		lk := strings.ToLower(k)
+		switch {
+		case strings.Contains(lk, "gas"):
+			gotGas, _ = jnum(v)
+		case strings.Contains(lk, "return") || strings.Contains(lk, "data"):
+			if s, ok := v.(string); ok {
+				if b, err := base64.StdEncoding.DecodeString(s); err == nil {
+					gotRet = b
+				} else if b, err := hex.DecodeString(s); err == nil {
+					gotRet = b
+				}
+			}
+		}
+	}
+	gotErr, _ := raw["vmErr"].(string)
+	if (gotErr != "") != (ref.Err != nil) {
+		bad("read-only call %s -> %s: node vm error %q, reference %v", from.Hex(), to.Hex(), gotErr, ref.Err)
+		return
+	}
+	if uint64(gotGas) != ref.UsedGas || !bytes.Equal(gotRet, ref.ReturnData) {
+		dbg := ""
+		if os.Getenv("VERIF_DEBUG") != "" {
+			cands := []Addr{to}
+			if len(data) >= 72 {
+				cands = append(cands, ToAddr(data[52:72]))
+			}
+			if len(data) >= 40+6*32 {
+				cands = append(cands, ToAddr(data[40+5*32+12:40+6*32]))
+			}
+			st2 := w.M.StateAt(h)
+			for _, a := range cands {
+				q, _ := r.Query("account", a[:], h)
+				dbg += fmt.Sprintf(" [%s model bal=%s nonce=%d code=%d destroyed=%v inner=%v node=%s]", a.Hex(), st2.GetBalance(common.Address(a)), st2.GetNonce(common.Address(a)), len(st2.GetCode(common.Address(a))), w.M.Destroyed[a], w.M.Inner[a], q.Value)
+			}
+		}
+		bad("read-only call %s -> %s: node gas %d ret %x, reference gas %d ret %x%s", from.Hex(), to.Hex(), gotGas, gotRet, ref.UsedGas, ref.ReturnData, dbg)
+	}
+	w.Probes.Hit("query.judged.vm_call")
 }
